@@ -835,3 +835,79 @@ Proof.
   - exact Hw.
   - apply (sent_batches_rect h sf af cs ca Hok). apply batch0_inv.
 Qed.
+
+(* ------------------------------------------------------------------------------------------ *)
+(** * 12. The column-level log model refines the row-level model; end to end for the log routes *)
+
+Section LREFINE.
+  Variables (p : entries_prog) (sf tf : list string).
+  Hypothesis Hfl : ep_flush_resets p = true.
+
+  Definition lsim (st : logs_st) (b : lbatch) : Prop := ls_size st = lb_size b /\ ts_ok (ls_ts st).
+
+  Lemma lcol_refines_id : forall evs st b w, world_ok w = true -> lsim st b ->
+    lcol_status p sf tf b evs = cls_of_parse (fst (do_parse ctx_logs w false (parse_logs st (map abs_lev evs)))).
+  Proof.
+    induction evs as [|ev evs IH]; intros st b w Hw [Hsz Hts]; cbn [map lcol_status parse_logs].
+    - rewrite do_parse_cons_ok; [|reflexivity|apply push_logs_ok; assumption]. reflexivity.
+    - destruct ev as [e| |t]; cbn [abs_lev].
+      + unfold on_entries_cols. destruct (en_lbl_short e); cbn [orb]; [reflexivity|].
+        destruct (en_bad_type e || Nat.ltb (en_msg e) (en_ts e)); [reflexivity|].
+        cbn [parse_logs]. cbv zeta.
+        destruct (on_entries st {| ei_rows := N.of_nat (en_ts e); ei_series := N.of_nat (en_series e); ei_bytes := en_bytes e |}) as [st' out] eqn:Hon.
+        destruct (on_entries_inv _ _ _ _ Hts Hon) as [Hts' Hout].
+        unfold on_entries in Hon. cbn [ei_bytes ei_series ei_rows ls_size] in Hon. cbn [lb_size]. rewrite <- Hsz.
+        destruct (MiB <? ls_size st + en_bytes e)%N; inversion Hon; subst; clear Hon.
+        * rewrite Hfl. cbn [app]. rewrite do_parse_cons_ok; [|reflexivity|apply push_logs_ok; [exact Hw|apply ts_add_ok; exact Hts]].
+          apply IH; [exact Hw|]. split; reflexivity.
+        * cbn [app]. apply IH; [exact Hw|]. split; [reflexivity|exact Hts'].
+      + reflexivity.
+      + destruct t; reflexivity.
+  Qed.
+End LREFINE.
+
+Lemma logs_serve_eq : forall evs st w,
+  serve tame_model logs_prog consumer_model ctx_logs w (logs_dres st evs)
+  = (end_of_parse (fst (do_parse ctx_logs w false (parse_logs st evs))), snd (do_parse ctx_logs w false (parse_logs st evs))).
+Proof.
+  intros evs st w. rewrite (serve_protocol _ _ _ _ _ (run_logs_prog _)).
+  pose proof (logs_prog_sends st evs) as H. rewrite run_logs_prog in H. cbn [fst] in H.
+  rewrite sends_of_protocol in H. now rewrite H.
+Qed.
+
+Lemma entries_ok_flush : forall p sf tf cs ct, entries_ok p sf tf cs ct = true -> ep_flush_resets p = true.
+Proof. intros p sf tf cs ct H. unfold entries_ok in H. repeat (apply andb_true_iff in H as [H ?]). exact H. Qed.
+
+Lemma log_requests_end_to_end_gen : forall p sf tf cs ct, entries_ok p sf tf cs ct = true -> forall evs,
+  exists r w', serve tame_model logs_prog consumer_model ctx_logs world0 (logs_dres logs_st0 (map abs_lev evs)) = (SAllDone r, w')
+    /\ cls_of_parse r = lcol_status p sf tf (lbatch0 sf tf) evs /\ world_ok w' = true
+    /\ (events_consistent evs = true ->
+        Forall (fun b => lbatch_rect b = true) (sent_lbatches p sf tf (lbatch0 sf tf) evs)).
+Proof.
+  intros p sf tf cs ct Hok evs.
+  pose proof (logs_no_crash (map abs_lev evs) logs_st0 world0 false eq_refl eq_refl) as [Hnc Hw].
+  exists (fst (do_parse ctx_logs world0 false (parse_logs logs_st0 (map abs_lev evs)))),
+         (snd (do_parse ctx_logs world0 false (parse_logs logs_st0 (map abs_lev evs)))).
+  split; [|split; [|split]].
+  - rewrite logs_serve_eq. f_equal. unfold end_of_parse.
+    destruct (fst (do_parse ctx_logs world0 false (parse_logs logs_st0 (map abs_lev evs)))); try reflexivity. contradiction.
+  - symmetry. apply (lcol_refines_id p sf tf (entries_ok_flush _ _ _ _ _ Hok) evs logs_st0 (lbatch0 sf tf) world0 eq_refl).
+    split; reflexivity.
+  - exact Hw.
+  - intros Hc. apply (sent_lbatches_rect p sf tf cs ct Hok); [apply lbatch0_inv|exact Hc].
+Qed.
+
+(* flushes of the log handler are bounded by the bytes accounted, like those of the span handler *)
+Lemma decode_logs_flush_bytes : forall evs st,
+  let '(f, _, s) := decode_logs st evs in
+  (N.of_nat (List.length f) * MiB + ls_size s <= ls_size st + logs_bytes evs)%N.
+Proof.
+  induction evs as [|ev evs IH]; intros st; cbn [decode_logs logs_bytes]; [cbn; lia|].
+  destruct ev as [r| |x]; try (cbn [List.length]; lia).
+  unfold on_entries. cbn [ls_size].
+  destruct (N.ltb_spec MiB (ls_size st + ei_bytes r)) as [Hlt|Hge].
+  - specialize (IH logs_st0). destruct (decode_logs logs_st0 evs) as [[f e] s].
+    cbn [app List.length]. change (ls_size logs_st0) with 0%N in IH. rewrite Nat2N.inj_succ, N.mul_succ_l. lia.
+  - match goal with |- context [decode_logs ?st1 evs] => specialize (IH st1); destruct (decode_logs st1 evs) as [[f e] s] end.
+    cbn [app ls_size] in *. lia.
+Qed.
